@@ -112,6 +112,7 @@ def sweep(rng, n):
 def run(ctx):
     n = ctx.n(4000, 50000)
     fails, dist = sweep(ctx.rng, n)
+    fails = fails + common.threshold_failures('C18', ctx.quick())
     c = A.corr(ctx.rng, ctx.n(1200, 12000))
     return {'failures': fails, 'disagreements': c['disagreements'][:20],
             'evaluations': n + c['evaluations'], 'distinct_nontrivial': c['distinct_nontrivial'],
@@ -165,6 +166,9 @@ def shrink(f):
 
 
 def replay(payload):
+    _f = payload.get('failure') or {}
+    if _f.get('threshold_input'):
+        return common.threshold_replay('C18', _f)
     f = payload.get('failure')
     if not f or 'input' not in f:
         return {'fails': False, 'note': 'no concrete input: ' + str(payload.get('no_longer_checks'))}
